@@ -1112,7 +1112,7 @@ class Executor:
                 rv = st.mem.get(("L", fr.fid, 0), UNIT)
                 st.frames.pop()
                 # free locals
-                if not fr.keep:
+                if not fr.keep and not _refs_frame(rv, fr.fid):
                     for key in [c for c in st.mem if c[0] == "L" and c[1] == fr.fid]:
                         del st.mem[key]
                 if len(st.frames) < base_depth or fr.dest is None and fr.ret_bb is None:
@@ -1281,6 +1281,14 @@ class Executor:
             if len(cands2) == 1:
                 return cands2[0]
             if len(cands2) > 1:
+                # inherent impls on different instantiations (impl Foo<A> { fn m } / impl Foo<B> { fn m }): select by the
+                # instantiation written in the callee path `Foo::<A>::m`
+                mt = re.match(r"^(.*)::<(.*)>::" + re.escape(c.method) + r"$", c.raw) if c.qself is None else None
+                if mt:
+                    want = mir.type_tree(f"{mt.group(1)}<{mt.group(2)}>")
+                    cands3 = [f for f in cands2 if f.self_ty and mir.unify_ty(mir.type_tree(f.self_ty), want, f.impl_generics, {})]
+                    if len(cands3) == 1:
+                        return cands3[0]
                 raise Unsupported(f"ambiguous callee {c.raw}: {[f.name for f in cands2][:4]}")
         return None
 
@@ -1366,6 +1374,23 @@ class Diverge:
 class Effect:
     """A summary result that needs to mutate the (possibly forked) state: fn(state) -> return value."""
     fn: Callable
+
+
+def _refs_frame(v, fid, depth=0) -> bool:
+    """does value v contain a reference into the locals of frame fid?  (values are immutable, so a `&self.field`
+    computed from a by-value copy of an argument points into the callee's locals; those cells must then outlive the frame)"""
+    if depth > 12:
+        return True
+    if isinstance(v, Ref):
+        c = v.cell
+        return isinstance(c, tuple) and len(c) == 3 and c[0] == "L" and c[1] == fid
+    if isinstance(v, (list, tuple)):
+        return any(_refs_frame(x, fid, depth + 1) for x in v)
+    if isinstance(v, V):
+        d = getattr(v, "__dict__", None)
+        if d:
+            return any(_refs_frame(x, fid, depth + 1) for x in d.values() if isinstance(x, (V, list, tuple)))
+    return False
 
 
 def _norm_ty(t: str) -> str:
